@@ -44,7 +44,9 @@ class C17(Check):
             "trailing and full-line comments, !$omp / !dir$ sentinels, nested #if/#ifdef/#ifndef/#elif/#else/#endif, "
             "#define/#undef/#include-less; every statement line carries a unique token; observed through parse_file AND "
             "finder.find for 2-3 define sets, selection compared with gfortran -cpp -E; (3) malformed stream: the same "
-            "programs with random character edits (backslash, /, *, tab, unbalanced quotes, lone &, missing final newline). "
+            "programs with random character edits (backslash, /, *, tab, unbalanced quotes, lone &, missing final newline); "
+            "(4) compilable programs (print/write statements with literals, split literals, directives) with define sets, "
+            "a sample of which gfortran -cpp -fsyntax-only must accept whenever S calls them well formed. "
             "Non-trivial = at least one counted and one uncounted line AND (a continuation or a literal containing ! or & "
             "or a sentinel or a conditional whose branches differ in selection)")
     assumptions = [
@@ -63,6 +65,8 @@ class C17(Check):
         self.oracle_dropped = 0
         self.oracle_bad = []
         self._treeerr = set()
+        self.compiler_runs = 0
+        self.compiler_bad = []
         self._wfx_only = set()
         self._oracle_cache = {}
         self._n = 0
@@ -91,6 +95,14 @@ class C17(Check):
                 self.hist["features"][f] = self.hist["features"].get(f, 0) + 1
             b = str(min(60, 10 * (text.count("\n") // 10)))
             self.hist["lines_hist"][b] = self.hist["lines_hist"].get(b, 0) + 1
+        # (2b) compilable programs (print/write statements, split literals, directives), all with define sets
+        nv = 150 if self.tier == "quick" else 3000
+        for i in range(nv):
+            text = G.render(G.gen_valid_program(self.rng))
+            out.append([text, G.gen_defsets(self.rng)])
+            self.hist["compilable"] = self.hist.get("compilable", 0) + 1
+            for f in G.features(text):
+                self.hist["features"][f] = self.hist["features"].get(f, 0) + 1
         # (3) malformed stream
         m = 400 if self.tier == "quick" else 8000
         for i in range(m):
@@ -288,6 +300,25 @@ class C17(Check):
         out = []
         if p1.returncode != 0 or p2.returncode != 0:
             out.append("gfortran rejects a literal ending in a backslash: S's reading of backslashes is not gfortran's default")
+        # S versus the compiler: every compilable program must be well formed for S, and gfortran must
+        # accept it for every define set (S's reading of literals / continuations / comments = the compiler's)
+        n = 60 if self.tier == "quick" else 800
+        progs = [G.render(G.gen_valid_program(self.rng)) for _ in range(n)]
+        answers = common.run_model("C17", ["#" + t.encode("latin-1").hex() for t in progs])
+        for t, a in zip(progs, answers):
+            wf = bool(a[1][0]) if not isinstance(a, str) else False
+            ok = True
+            for defs in ([], ["-DF0", "-DV0=1"], ["-DF1", "-DV1=2", "-DV0=0"]):
+                (d / "v.F90").write_text(t)
+                p = subprocess.run(["gfortran", "-cpp", "-fsyntax-only"] + defs + ["v.F90"], cwd=d, capture_output=True, text=True)
+                self.compiler_runs += 1
+                if p.returncode != 0 or p.stderr.strip():
+                    ok = False
+                    break
+            if wf != ok:
+                self.compiler_bad.append({"text": t, "S_wf": wf, "gfortran_accepts": ok})
+        if self.compiler_bad:
+            out.append(f"S and gfortran disagree on the well-formedness of {len(self.compiler_bad)} compilable programs: {self.compiler_bad[0]}")
         return out
 
     def extra_coverage(self):
@@ -295,7 +326,8 @@ class C17(Check):
                 "exhaustive": {"alphabet": ALPHABET, "max_body_length": 5 if self.tier == "quick" else 6},
                 "spec_oracle": "gfortran -cpp -E -P" if shutil.which("gfortran") else "absent",
                 "spec_oracle_cases": self.oracle_cases, "spec_oracle_dropped_diagnosed": self.oracle_dropped,
-                "spec_oracle_disagreements": len(self.oracle_bad)}
+                "spec_oracle_disagreements": len(self.oracle_bad),
+                "spec_vs_compiler_runs": self.compiler_runs, "spec_vs_compiler_disagreements": len(self.compiler_bad)}
 
 
 CHECK = C17
